@@ -44,12 +44,13 @@ def run(run):
     # ---- histories: exhaustive short ones + simulated long ones
     hist = []
     p = os.path.join(out, "GenH.cfg")
-    pcfg(p, 7, 2, 4, 2 if quick else 3, 2 if quick else 3, gen=True)
+    pcfg(p, 7, 2, 4, 2, 2 if quick else 3, gen=True)   # (MaxTF 3, MaxCalls 3) was measured at > 54 M histories: never finishes
     hp = os.path.join(out, "hist_bfs.ndjson")
     run.gen("gen_hist_bfs", SPEC, "ProjStateGen", p, hp, workers=4, timeout=3000)
     hist += vlib.read_ndjson(hp)
-    if quick and len(hist) > 1500:
-        hist = hist[:: len(hist) // 1500 + 1]
+    cap = 1500 if quick else 40000
+    if len(hist) > cap:
+        hist = hist[:: len(hist) // cap + 1]
     p = os.path.join(out, "SimH.cfg")
     depth = 25 if quick else 40
     pcfg(p, 7, 3, 7, 6, depth, gen=True, emitlen=depth)
